@@ -23,7 +23,7 @@ ASSUMPTIONS = [
     'the number of *_value_changed notifications is not asserted (not stated); notify is only exercised',
     'evaluated at quiescence of a manager stepped by tick() from the checking thread',
 ]
-REQUIRED = ['awaited_event_due_its_own_success_feedback', 'awaited_event_due_its_own_failure_feedback', 'handler_of_an_exception_event_raised', 'falsy_result', 'handler_resumed_from_call', 'base_exception_raised', 'raise_plus_generator', 'generator_raises_at_step', 'multi_value_list', 'single_value_scalar', 'success_requested',
+REQUIRED = ['event_without_any_handler_asks_for_success_feedback', 'awaited_event_due_its_own_success_feedback', 'awaited_event_due_its_own_failure_feedback', 'handler_of_an_exception_event_raised', 'falsy_result', 'handler_resumed_from_call', 'base_exception_raised', 'raise_plus_generator', 'generator_raises_at_step', 'multi_value_list', 'single_value_scalar', 'success_requested',
             'failure_requested', 'notify_requested', 'success_channels_override', 'child_event_from_handler', 'two_raises_one_event',
             'same_event_object_fired_again', 'event_object_fired_again_after_a_handler_raised', 'handler_returned_nested_value',
             'nested_value_next_to_a_raising_handler', 'handler_call_timed_out', 'handler_called_again_right_after_timeout']
@@ -105,7 +105,7 @@ def run_case(case):
         hs = case['handlers'] = hs + [dict(N_HANDLER)]
     if case.get('under_run') and not any(h['name'] == 'slow' for h in hs):
         hs = case['handlers'] = hs + [copy.deepcopy(SLOW_HANDLER)]
-    w = World({'handlers': hs, 'mk': case.get('mk')})
+    w = World({'handlers': hs, 'mk': case.get('mk'), 'unprobed': case.get('unprobed'), 'probe_names': [f['name'] for f in case['fires']]})
     problems = []
     subjects = []
     for spec in case['fires']:
@@ -251,6 +251,8 @@ def evaluate(case, w, problems, canary, norm):
             marks.add('success_channels_override')
         if info['parent'] is not None:
             marks.add('child_event_from_handler')
+        if info['name'] in (case.get('unprobed') or ()) and flags.get('success'):
+            marks.add('event_without_any_handler_asks_for_success_feedback')
         if info.get('via') in ('call', 'wait', 'waitname') and info['dispatched']:
             if flags.get('success') and not raises:
                 marks.add('awaited_event_due_its_own_success_feedback')
@@ -295,6 +297,17 @@ def corpus():
     for shapes in (['GTy'], ['GTC'], ['GTW'], ['GTCT'], ['GTX'], ['GTC', 'R'], ['G2vv', 'GTC'], ['GTC', 'GX1'], ['GTW', 'GTC'], ['X', 'GTC'], ['GTC', 'RV']):
         for fl in (ALLF, {'success': True}):
             cs.append({'handlers': mk_handlers('e', shapes), 'fires': [{'name': 'e', 'flags': fl}], 'under_run': True})
+    # events nobody handles at all (no handler of that name, no catch-all anywhere - the harness's own probe listens by name in these
+    # cases): "no handler of the event raised" holds for them, so a requested <name>_success is due, once; fired from outside, from a
+    # handler, twice (the second time with the handler cache warm), with success_channels, next to handled events
+    for fl in (ALLF, {'success': True}):
+        cs.append({'handlers': mk_handlers('e', ['R']), 'fires': [{'name': 'u', 'flags': fl}], 'unprobed': ['u']})
+        cs.append({'handlers': mk_handlers('e', ['R']), 'fires': [{'name': 'u', 'flags': fl}, {'name': 'e', 'flags': fl}, {'name': 'u', 'flags': fl}], 'unprobed': ['u']})
+        cs.append({'handlers': mk_handlers('e', ['R', 'G1v'], extra={0: [['fire', {'name': 'u', 'flags': fl}]], 1: [['fire', {'name': 'u', 'flags': fl}]]}),
+                   'fires': [{'name': 'e', 'flags': ALLF}], 'unprobed': ['u']})
+        cs.append({'handlers': mk_handlers('e', ['X']), 'fires': [{'name': 'u', 'flags': fl, 'success_channels': ['other']}, {'name': 'e', 'flags': fl}], 'unprobed': ['u']})
+        cs.append({'handlers': mk_handlers('e', ['R']), 'fires': [{'name': 'u', 'flags': fl}], 'unprobed': ['u'], 'under_run': True})
+        cs.append({'handlers': mk_handlers('e', ['R']), 'fires': [{'name': 'u', 'flags': fl}], 'unprobed': ['u'], 'mk': 'attr', 'refire': 1})
     # awaited events that ask for feedback themselves (fired by call(), waited for by object and by name; handlers plain / generator / raising)
     for sh in sorted(AWAIT_SHAPES):
         for shapes in ([sh], [sh, 'R'], ['X', sh], [sh, sh]):
@@ -366,6 +379,15 @@ def gen_case(rng):
         if rng.random() < 0.6:
             handlers.append({'hid': hid + 1, 'name': 'exception', 'prio': rng.choice([5, 0, -5]), 'gen': False, 'body': [['ret', 'noted']], 'shape': 'R'})
     case = {'handlers': handlers, 'fires': fires}
+    if rng.random() < 0.15:
+        # some events go to a name nobody handles at all
+        case['unprobed'] = ['u']
+        for h in handlers:
+            for a in h['body']:
+                if a[0] == 'fire' and rng.random() < 0.3:
+                    a[1] = dict(a[1], name='u')
+        if rng.random() < 0.6:
+            fires.insert(rng.randint(0, len(fires)), {'name': 'u', 'flags': {f: rng.random() < 0.7 for f in ('success', 'failure', 'notify')}})
     if rng.random() < 0.3:
         case['mk'] = rng.choice(['attr', 'renamed'])
     if rng.random() < 0.3:
